@@ -4,33 +4,18 @@ use crate::support::*;
 use core::cmp::Ordering;
 pub mod ty {
     #![deny(warnings)]
-    #![allow(dead_code, unused_imports)]
+    #![allow(dead_code, unused_imports, non_snake_case)]
     use crate::support::{A, B, C, Good, Bad, m_eq, m_cmp, m_pcmp, m_hash, m_fmt, m_clone, m_clone_c, m_into, g_eq, g_cmp, g_pcmp, g_hash, g_fmt};
     use educe::Educe;
-
-    // names at the derive site that shadow everything the generated code might be tempted to write unqualified
-    #[allow(non_camel_case_types)] pub struct Option; pub struct Result; pub struct Ordering; pub struct Clone; pub struct Copy;
-    pub struct Default; pub struct Debug; pub struct PartialEq; pub struct Eq; pub struct PartialOrd; pub struct Ord; pub struct Hash;
-    pub struct Hasher; pub struct Into; pub struct From; pub struct Deref; pub struct DerefMut; pub struct Formatter; pub struct String;
-    pub struct Vec; pub struct Box; pub struct PhantomData; pub struct Sized; pub struct Send; pub struct Iterator; pub struct Self_;
-    #[allow(non_snake_case)] pub fn Some() {} #[allow(non_snake_case)] pub fn None() {} #[allow(non_snake_case)] pub fn Ok() {} #[allow(non_snake_case)] pub fn Err() {}
-    pub fn drop() {} pub mod core {} pub mod std {} pub mod alloc {} pub mod fmt {} pub mod cmp {} pub mod hash {} pub mod clone {} pub mod marker {}
-    #[allow(unused_macros)] macro_rules! stringify { ($($t:tt)*) => { "SHADOWED" } }
-    #[allow(unused_macros)] macro_rules! unreachable { ($($t:tt)*) => { () } }
-    #[allow(unused_macros)] macro_rules! panic { ($($t:tt)*) => { () } }
-    #[allow(unused_macros)] macro_rules! matches { ($($t:tt)*) => { true } }
-    #[allow(unused_macros)] macro_rules! write { ($($t:tt)*) => { () } }
-    #[allow(unused_macros)] macro_rules! format_args { ($($t:tt)*) => { () } }
-    #[allow(unused_macros)] macro_rules! assert { ($($t:tt)*) => { () } }
 #[derive(Educe)]
-#[repr(isize)]
-#[educe(PartialOrd, PartialEq, Eq)]
-pub enum T { V1(#[educe(PartialOrd(rank = "-2"))] A<0>, #[educe(PartialOrd(rank = 0x1, method = "m_pcmp"))] A<1>, #[educe(PartialOrd(method(m_pcmp), rank = 6))] A<2>, #[educe(PartialOrd(ignore(true)))] A<0>) = -170, Unit = 128, None { #[educe(PartialOrd(ignore = true))] self_data: A<0>, y: A<1> } = -5, Some }
+#[educe(Debug)]
+#[educe(Ord, Eq, PartialEq)]
+pub struct T(#[educe(Debug(ignore = false))] pub A<0>, #[educe(Ord(rank = 5, method(m_cmp)))] pub A<0>, #[educe(Ord(method = "m_cmp", rank = 1i64), Debug(ignore = true))] pub A<2>);
 }
 pub use ty::T;
-
-pub fn values() -> Vec<T> { vec![T::V1(A(1), A(7), A(7), A(7)), T::V1(A(7), A(1), A(0), A(1)), T::V1(A(7), A(1), A(7), A(1)), T::V1(A(1), A(1), A(7), A(0)), T::V1(A(0), A(7), A(1), A(0)), T::V1(A(1), A(1), A(1), A(0)), T::V1(A(1), A(1), A(0), A(1)), T::V1(A(0), A(0), A(1), A(0)), T::V1(A(7), A(7), A(7), A(7)), T::Unit, T::None { self_data: A(0), y: A(0) }, T::None { self_data: A(0), y: A(1) }, T::None { self_data: A(0), y: A(7) }, T::None { self_data: A(1), y: A(0) }, T::None { self_data: A(1), y: A(1) }, T::None { self_data: A(1), y: A(7) }, T::None { self_data: A(7), y: A(0) }, T::None { self_data: A(7), y: A(1) }, T::None { self_data: A(7), y: A(7) }, T::Some] }
-pub fn show(x: &T) -> String { #[allow(unused_variables)] match x { T::V1(p0, p1, p2, p3) => format!("V1({},{},{},{})", sv(p0), sv(p1), sv(p2), sv(p3)), T::Unit => format!("Unit()"), T::None { self_data: p0, y: p1 } => format!("None({},{})", sv(p0), sv(p1)), T::Some => format!("Some()") } }
-pub fn o_disc(x: &T) -> i128 { match x { T::V1(_, _, _, _) => -170, T::Unit => 128, T::None { self_data: _, y: _ } => -5, T::Some => -4 } }
-pub fn o_pcmp(a: &T, b: &T) -> Option<Ordering> { match (a, b) { (T::V1(a0, a1, a2, a3), T::V1(b0, b1, b2, b3)) => { match ::core::cmp::PartialOrd::partial_cmp(a0, b0) { Some(Ordering::Equal) => (), x => return x } match m_pcmp(a1, b1) { Some(Ordering::Equal) => (), x => return x } match m_pcmp(a2, b2) { Some(Ordering::Equal) => (), x => return x } Some(Ordering::Equal) }, (T::Unit, T::Unit) => {  Some(Ordering::Equal) }, (T::None { self_data: a0, y: a1 }, T::None { self_data: b0, y: b1 }) => { match ::core::cmp::PartialOrd::partial_cmp(a1, b1) { Some(Ordering::Equal) => (), x => return x } Some(Ordering::Equal) }, (T::Some, T::Some) => {  Some(Ordering::Equal) }, _ => Some(o_disc(a).cmp(&o_disc(b))) } }
-pub fn run(out: &mut Out) { let vs = values(); for (i, a) in vs.iter().enumerate() { for (j, b) in vs.iter().enumerate() { let e = o_pcmp(a, b); let g = ::core::cmp::PartialOrd::partial_cmp(a, b); out.check(g == e, "ord_26", "partial_cmp", || format!("partial_cmp({}, {}) = {:?} expected {:?}", show(a), show(b), g, e)); } } }
+impl PartialOrd for T { fn partial_cmp(&self, o: &Self) -> Option<Ordering> { Some(::core::cmp::Ord::cmp(self, o)) } }
+pub fn values() -> Vec<T> { vec![T(A(0), A(0), A(0)), T(A(0), A(0), A(1)), T(A(0), A(0), A(7)), T(A(0), A(1), A(0)), T(A(0), A(1), A(1)), T(A(0), A(1), A(7)), T(A(0), A(7), A(0)), T(A(0), A(7), A(1)), T(A(0), A(7), A(7)), T(A(1), A(0), A(0)), T(A(1), A(0), A(1)), T(A(1), A(0), A(7)), T(A(1), A(1), A(0)), T(A(1), A(1), A(1)), T(A(1), A(1), A(7)), T(A(1), A(7), A(0)), T(A(1), A(7), A(1)), T(A(1), A(7), A(7)), T(A(7), A(0), A(0)), T(A(7), A(0), A(1)), T(A(7), A(0), A(7)), T(A(7), A(1), A(0)), T(A(7), A(1), A(1)), T(A(7), A(1), A(7)), T(A(7), A(7), A(0)), T(A(7), A(7), A(1)), T(A(7), A(7), A(7))] }
+pub fn show(x: &T) -> String { #[allow(unused_variables)] match x { T(p0, p1, p2) => format!("T({},{},{})", sv(p0), sv(p1), sv(p2)) } }
+pub fn o_disc(x: &T) -> i128 { match x { T(_, _, _) => 0 } }
+pub fn o_cmp(a: &T, b: &T) -> Ordering { match (a, b) { (T(a0, a1, a2), T(b0, b1, b2)) => { let c = ::core::cmp::Ord::cmp(a0, b0); if c != Ordering::Equal { return c; } let c = m_cmp(a2, b2); if c != Ordering::Equal { return c; } let c = m_cmp(a1, b1); if c != Ordering::Equal { return c; } Ordering::Equal } } }
+pub fn run(out: &mut Out) { let vs = values(); for (i, a) in vs.iter().enumerate() { for (j, b) in vs.iter().enumerate() { let e = o_cmp(a, b); let g = ::core::cmp::Ord::cmp(a, b); out.check(g == e, "ord_26", "cmp", || format!("cmp({}, {}) = {:?} expected {:?}", show(a), show(b), g, e)); } } }
